@@ -17,6 +17,8 @@ Oracle  :
                           ... and when the engine itself attributes the error to a method line (NodeInterpretationError.node)
                           that line is in failed_line_ids            failed-line-missing:attributed-line
                                                                      failed-line-missing:after-live-edit  (after an accepted live edit)
+  (S) failed => error     a method line that newly appears in failed_line_ids: the tick ends Paused + Method Status Error, in every run
+                          of a case (error -> Stop -> Start / Restart -> error again)   failed-line-without-error-pause:<state>:<status>
   (K) known-bad lines     a line that the text recogniser classifies as known-bad (unknown instruction, bad UOD /
                           interpreter / engine-command arguments, incomparable units, unknown tag, missing condition,
                           missing macro, recursive macro) and that the engine reports started (Watch/Alarm: whose interrupt
@@ -321,6 +323,7 @@ def judge(case, c: D.Campaign, viol, info):
     open_exp: list = []     # [id, kind, reach_index]
     hold_watch: list = []   # [index of the error tick]
     pend: dict = {}         # (K2) line id -> [kind, interpreter ticks left, -]
+    s_epoch, s_failed, runs = None, set(), 0
     all_texts = [l[1] for l in case["method"]]
     for i, r in enumerate(recs):
         if r.raised is not None:
@@ -329,6 +332,7 @@ def judge(case, c: D.Campaign, viol, info):
             info["raised"] = 1
             break
         errs = [e for e in r.events if e[1] == "method_error"]
+        runs += sum(1 for e in r.events if e[1] == "start")
         turned = r.pre_status != "Error" and r.status == "Error"
         if errs:
             info["errors"] = info.get("errors", 0) + 1
@@ -364,6 +368,26 @@ def judge(case, c: D.Campaign, viol, info):
                     info["failed-line-confirmed"] = 1
                 if r.state == "Paused" and r.status == "Error" and not timed and r.phase == "main":
                     hold_watch.append(i)
+        # (S) a method line that newly appears in failed_line_ids is a failing instruction: the tick ends Paused with Method Status
+        #     Error - in every run of the case, whatever the engine signalled (no reliance on the method-error event)
+        if r.epoch != s_epoch:
+            s_epoch, s_failed = r.epoch, set()
+        if not r.merged and r.ms_exc is None and r.phase == "main":
+            fresh = [x for x in r.failed if x not in s_failed and x != "root"]
+            s_failed.update(r.failed)
+            if fresh:
+                if r.state in ("Stopped", "Restarting") or r.stop_pending:
+                    info["error-with-stop"] = 1
+                elif any(e[1] == "runstate" and "UNPAUSE" in e[2].upper() for e in r.events):
+                    info["error-with-unpause"] = 1
+                elif not (r.state == "Paused" and r.status == "Error"):
+                    viol("failed-line-without-error-pause:%s:%s" % (r.state, r.status),
+                         "tick %d: line %r newly reported failed, but the tick ends with System State %s, Method Status %s (run %d of the case, "
+                         "method-error event in this tick: %s)" % (r.no, texts_of(r, fresh[0]), r.state, r.status, runs, bool(errs)))
+                else:
+                    info["S-confirmed"] = info.get("S-confirmed", 0) + 1
+                    if runs >= 2:
+                        info["S-confirmed-in-later-run"] = 1
         # (H)
         for j in list(hold_watch):
             if j == i:
@@ -550,7 +574,7 @@ def shrink_hints(case):
         yield c2
 
 
-_CLASS_KEYS = ("k2-confirmed", "k2-confirmed-with-other-failed-lines", "k2-dropped", "raised", "errors", "error-with-stop", "error-with-unpause", "error-without-attributed-instruction", "error-in-injected-instruction", "failed-line-confirmed", "state-tags-simulated", "pause-held", "window-disturbed", "bad-reached", "bad-confirmed", "stop:ok",
+_CLASS_KEYS = ("S-confirmed", "S-confirmed-in-later-run", "second-act", "k2-confirmed", "k2-confirmed-with-other-failed-lines", "k2-dropped", "raised", "errors", "error-with-stop", "error-with-unpause", "error-without-attributed-instruction", "error-in-injected-instruction", "failed-line-confirmed", "state-tags-simulated", "pause-held", "window-disturbed", "bad-reached", "bad-confirmed", "stop:ok",
                "stop:already-stopped", "fix:tail-ran", "fix:status-ok", "fix:edit-refused", "fix:merge_method", "fix:set_method", "fix:skip:not-in-error-pause",
                "fix:skip:edited-or-injected", "fix:skip:no-failed-line", "method-state-raised")
 
@@ -561,6 +585,8 @@ def run_shard(col, cfg):
     def body(case):
         vs, info, c = run_case(case)
         classes = ["mix:" + case["mix"], "epilogue:" + case["epilogue"]]
+        if case.get("second_act"):
+            classes.append("second-act:" + case["second_act"])
         for k in info:
             if k in _CLASS_KEYS or k.startswith(("bad-reached:", "bad-confirmed:", "fix:not-judged", "ops:")):
                 classes.append(k)
